@@ -77,6 +77,9 @@ class Ctx:
             try:
                 node = gens.random_tree(rnd, maxn=rnd.choice([1, 2, 3, 5, 7]), maxd=rnd.choice([1, 2, 3, 4]))
                 self.tree = Tree(node, metadata=rnd.choice([{}, {'id': '1'}, {'snt': 'a b', 'id': 'x y', 'e': ''}]))
+                if rnd.random() < 0.15:
+                    # variables spelled like the names the transformations generate ('_', '_2', '_3', ...)
+                    self.tree.reset_variables('_{j}')
                 self.graph = layout.interpret(self.tree, model=self.model)
                 break
             except Exception:
